@@ -1218,7 +1218,9 @@ impl<'a> TLVSequenceTLVIter<'a> {
 
             if control.is_container_start() {
                 self.nesting += 1;
-            } else if control.is_container_end() {
+            } else if control.is_container_end() && self.nesting > 0 {
+                // At nesting 0 this is the end marker of the container enclosing the
+                // sequence (or a stray one): it ends the iteration, there is nothing to leave
                 self.nesting -= 1;
             }
         }
